@@ -49,7 +49,9 @@ struct PlanWriter {
     /// call that offers exactly the data), not by its position, so that the check does not depend
     /// on how many inner writes carry the colour codes
     data: Vec<u8>,
-    seen_data: bool,
+    /// how many bytes of the data the writer has accepted so far (an implementation may offer the
+    /// rest of the data again after a short count)
+    data_pos: usize,
     /// what happened, for the oracle: was the planned fault injected, and on which kind of call
     log: Rc<RefCell<PlanLog>>,
 }
@@ -59,12 +61,18 @@ struct PlanLog {
     injected: bool,
     injected_on_data: bool,
     data_call_seen: bool,
+    /// data bytes accepted in total (counting writes that offered what was left of the data)
+    data_accepted: usize,
+    /// data bytes accepted by the first data write alone
+    first_accepted: usize,
 }
 
 impl Write for PlanWriter {
     fn write(&mut self, buf: &[u8]) -> std::io::Result<usize> {
         self.calls += 1;
-        let is_data_call = !self.seen_data && !self.data.is_empty() && buf == self.data.as_slice();
+        // a data write offers the data, or - after a short count - what is left of it
+        let is_data_call = !buf.is_empty() && self.data_pos < self.data.len() && buf == &self.data[self.data_pos..];
+        let first_data_call = is_data_call && self.data_pos == 0;
         if let Plan::FailAt(k, kind) = self.plan {
             if self.calls == k {
                 let mut l = self.log.borrow_mut();
@@ -73,14 +81,20 @@ impl Write for PlanWriter {
                 return Err(std::io::Error::new(kind_of(kind), "injected"));
             }
         }
-        if is_data_call {
-            self.seen_data = true;
-            self.log.borrow_mut().data_call_seen = true;
-        }
         let n = match self.plan {
-            Plan::DataPrefix(n) if is_data_call => n.min(buf.len()),
+            // the planned short count applies to the first data write
+            Plan::DataPrefix(n) if first_data_call => n.min(buf.len()),
             _ => buf.len(),
         };
+        if is_data_call {
+            self.data_pos += n;
+            let mut l = self.log.borrow_mut();
+            if first_data_call {
+                l.first_accepted = n;
+            }
+            l.data_call_seen = true;
+            l.data_accepted = self.data_pos;
+        }
         self.out.borrow_mut().extend_from_slice(&buf[..n]);
         Ok(n)
     }
@@ -134,7 +148,7 @@ fn check(case: &Case) -> Result<bool, String> {
             (r, v)
         }
         t => {
-            let mut w = PlanWriter { plan: case.plan, calls: 0, out: out.clone(), data: data.clone(), seen_data: false, log: plog.clone() };
+            let mut w = PlanWriter { plan: case.plan, calls: 0, out: out.clone(), data: data.clone(), data_pos: 0, log: plog.clone() };
             let r = match t {
                 0 => anstyle_wincon::ansi::write_colored(&mut w, fg, bg, &data),
                 1 => {
@@ -189,12 +203,16 @@ fn check(case: &Case) -> Result<bool, String> {
         Ok(n) => n,
         Err(e) => return Err(format!("write_colored failed with {:?} although no error was injected", e.kind())),
     };
-    let want_n = match plan {
-        Plan::DataPrefix(p) if plog.data_call_seen => p.min(data.len()),
-        _ => data.len(),
-    };
-    if n != want_n {
-        return Err(format!("write_colored returned {n} but the writer accepted {want_n} of {} data bytes", data.len()));
+    // The number of data bytes the writer accepted. With a scripted writer: what the first data
+    // write took, or - when the implementation offers the rest of the data again - the total. (A
+    // later write that happens to equal the rest of the data, e.g. the reset after data ending in
+    // ESC[0m, is told apart by the framing check below, which is run with the returned count.)
+    if case.target < 3 && plog.data_call_seen {
+        if n != plog.first_accepted && n != plog.data_accepted {
+            return Err(format!("write_colored returned {n} but the writer accepted {} of {} data bytes ({} in its first data write)", plog.data_accepted, data.len(), plog.first_accepted));
+        }
+    } else if n != data.len() {
+        return Err(format!("write_colored returned {n} but the writer accepted all {} data bytes", data.len()));
     }
     let body = &data[..n];
     if !coloured {
